@@ -6,6 +6,10 @@
 // <ti>    = `:`-separated operations of thread i:
 //   N<pattern>  notify        S<key>  subscribe (observer id = 100*i + position)      U<k>  unsubscribe this thread's k-th subscription
 //   K<pattern>  shrink        E<key>  exists                                            D     depth
+//   X<pattern>  the same notify, issued from inside a callback of ANOTHER router (`aux`, its own Resource = m2/c3): the calling
+//               thread is in the middle of aux.notify() — holding aux's read lock — when it calls router.notify(pattern).
+//               The callback does not call back into the router it was delivered by, so the program is one of the property's;
+//               the trace shows an ordinary `op … N<pattern>` (the router under test cannot tell the difference).
 // keys / patterns: levels separated by `/`; a level `*` is RoutingKeyBuilder::all().
 // Every callback logs `cb t o`, yields (a scheduling point inside the delivery), logs `cbx t o`.
 // Events: op t idx <text> | opret t idx <result> | cb t o | cbx t o | scheduler events (lock/unlock/park/notify …)
@@ -30,6 +34,9 @@ static std::vector<std::string> split(const std::string &s, char sep) {
     return r;
 }
 
+static tulz::ConcurrentSubjectRouter *g_aux = nullptr;
+static thread_local std::function<void()> t_bridge;
+
 static void runThread(tulz::ConcurrentSubjectRouter &router, int t, const std::vector<std::string> &ops) {
     std::vector<tulz::USubscription> subs;
     for (size_t i = 0; i < ops.size(); i++) {
@@ -37,6 +44,16 @@ static void runThread(tulz::ConcurrentSubjectRouter &router, int t, const std::v
         if (op.empty()) continue;
         std::string arg = op.substr(1);
         std::string tag = std::to_string(t) + " " + std::to_string(i);
+        if (op[0] == 'X') {
+            t_bridge = [&router, tag, arg] {
+                ev("op " + tag + " N" + arg);
+                size_t n = router.notify(mkKey(arg));
+                ev("opret " + tag + " " + std::to_string(n));
+            };
+            g_aux->notify(mkKey("bridge"));
+            t_bridge = nullptr;
+            continue;
+        }
         ev("op " + tag + " " + op);
         switch (op[0]) {
             case 'N': {
@@ -72,7 +89,16 @@ static void runThread(tulz::ConcurrentSubjectRouter &router, int t, const std::v
 
 static void runOne(const std::string &cfg) {
     auto parts = split(cfg, '|');
-    tulz::ConcurrentSubjectRouter router;
+    tulz::ConcurrentSubjectRouter router, aux;
+    {
+        // stable ids: the Resource of the router under test is m0 / c1, the auxiliary router's m2 / c3 (the replay looks at m0 / c1 only)
+        auto &S = verif::Sched::I();
+        std::unique_lock<decltype(S.G)> lk(S.G);
+        S.objId(&router.m_resource.m_mutex); S.objId(&router.m_resource.m_cv);
+        S.objId(&aux.m_resource.m_mutex); S.objId(&aux.m_resource.m_cv);
+    }
+    g_aux = &aux;
+    auto auxSub = aux.subscribe(mkKey("bridge"), [] { if (t_bridge) t_bridge(); });
     std::vector<tulz::USubscription> initial;
     if (parts.at(0) != "-") {
         int obs = 0;
